@@ -14,11 +14,12 @@ ASSUME_CONN = ["handler-supplied strings contain no NUL byte",
 
 def conn_family(cx, model, gen_prop, n_quick, n_thorough, consts_thorough=None, rule="", extra_models=(),
                 trace_module="Trace_PgConn", trace_cfg=None, mc_workers=1, known_match=None, gen_extra=None,
-                play_extra=None, negative=()):
+                play_extra=None, negative=(), proj=None):
     """Generic procedure for properties decided on the single-connection machine."""
     build_harness(cx)
     thorough = cx.tier == "thorough"
     consts = consts_thorough if thorough else None
+    play_extra = (play_extra or []) + ["-proj", proj if proj is not None else cx.pid]
     files = []
     b1 = model_check(cx, model, consts=consts, workers=mc_workers) if model else None
     if b1:
@@ -56,7 +57,20 @@ def c05(cx):
              "Written()). distinct_nontrivial = distinct behaviours.")
 
 
-PROPS = {"C05": c05}
+def c06(cx):
+    return conn_family(
+        cx, "MC_C06", "C06", 500, 10000,
+        consts_thorough={"Rich": "TRUE", "MaxSends": 14},
+        rule="TLC explores every history of extended-protocol messages over names {'',a} x portals {'',p} (known/"
+             "unknown, parser and handler success/failure, interleaved simple queries; thorough adds Close, NoData "
+             "statements, multi/zero-statement parses, oversized/unknown/stray-COPY messages, Terminate) and exports "
+             "one behaviour per transition of the quotient graph (transition cover); a seeded generator adds random "
+             "histories of up to 30 messages over 4 names with pipelining. Every behaviour is executed on the real "
+             "server; TLC validates the recordings (reply kinds per message, ReadyForQuery only for Sync, one "
+             "ErrorResponse then silence until Sync, no callback while discarding, idle only when nothing is owed).")
+
+
+PROPS = {"C05": c05, "C06": c06}
 
 
 def replay(cx, path):
